@@ -9,14 +9,18 @@ def plan(tier, seed):
     for lo, hi in parts(H.NS, 16):
         conds.append(Cond("havoc-%03d_%03d" % (lo, hi), "harness/c13.py", "havoc",
                           env={"C13_LO": lo, "C13_HI": hi}, timeout=280 if q else 1200))
+    conds.append(Cond("factory-havoc", "harness/c13.py", "fhavoc", timeout=280 if q else 900))
+    conds.append(Cond("factory-havoc-vacuity", "harness/c13.py", "fhavoc", timeout=90, vacuity=True))
     conds.append(Cond("havoc-vacuity", "harness/c13.py", "havoc", env={"C13_LO": 0, "C13_HI": 3}, timeout=90, vacuity=True))
-    meta = dict(functions=PARSER_FUNCS + ["sievelib.parser.Parser.__reset_parser", "sievelib.commands.Command.tosieve"],
+    meta = dict(functions=PARSER_FUNCS + ["sievelib.parser.Parser.__reset_parser", "sievelib.commands.Command.tosieve",
+                                      "sievelib.factory.FiltersSet.addfilter/disablefilter/updatefilter/__create_filter/__build_condition"],
                 bounds={"corpus": "%d scripts (the suite's own, plus truncated / extension-dependent ones)" % H.NS,
                         "junk": "bracket stack / comments / pending list: symbolic lists of length <= 2; expected: optional "
                                 "tuple of <= 2 symbolic strings; state function and current command from 4 candidates each; "
                                 "lexer position 0..10; arbitrary loaded-extension set; parser attributes not known to the "
                                 "harness are poisoned"},
-                outside=["junk values larger than the bounds", "scripts outside the corpus"],
+                outside=["factory: one add/disable/update sequence per (condition, action) pair of the pools",
+                         "junk values larger than the bounds", "scripts outside the corpus"],
                 assumptions=["inductive reading: independence from an arbitrary pre-state implies independence from every "
                              "history; the list of state attributes is re-derived from the AST of parser.py on every run",
                              "expected outcomes come from a pristine Parser in the same process with an empty global list"],
